@@ -704,3 +704,71 @@ class PipelineFromYaml(Contract):
 
     def frame_ok(self, I, inp, obj, name):
         return False
+
+
+@register
+class ResolverSourcePath(Contract):
+    """ProcessingPipelineResolver: a pipeline read from a file - named directly or found in a pipeline directory - is loaded with ITS OWN
+    file path as source location (the allowed directory for variables files is derived from it: the pipeline file's directory, never a
+    parent of it), and with no opt-in argument"""
+    id = "C16.ProcessingPipelineResolver.resolve[files]"
+    target = "sigma.processing.resolver:ProcessingPipelineResolver.resolve"
+    props = ("C16",)
+    cases = ("file", "directory")
+    assumed = ["open() / Path.is_dir() / Path.glob() are the file system (modelled: one pipeline file, in the directory case found two levels below the directory)",
+               "ProcessingPipeline.from_yaml by its own contract (C16.ProcessingPipeline.from_yaml)"]
+
+    def setup(self, E):
+        calls = []
+        E._c16_from_yaml = calls
+
+        def s_from_yaml(I, so, a, k):
+            calls.append((list(a), dict(k)))
+            p = SObj(I.E.index.lookup("sigma.processing.pipeline:ProcessingPipeline"), {"priority": 0}, lazy=True)
+            p.ghost["name"] = "loaded"
+            return p
+        E.summaries["sigma.processing.pipeline:ProcessingPipeline.from_yaml"] = s_from_yaml
+        E.summaries["sigma.processing.pipeline:ProcessingPipeline.__radd__"] = lambda I, so, a, k: so
+
+        class _H:
+            def __init__(self, v):
+                self.value = v
+
+            def exit(self, I2, exc):
+                pass
+
+        class _File:
+            def __init__(self, I, path):
+                self.obj = SObj("File", {"read": NativeFn("read", lambda I2, a, k: I2.fresh("yaml_text", "str"))}, ghost={"path": path})
+
+            def as_context(self, I2):
+                return _H(self.obj)
+        E.builtins = dict(E.builtins)
+        E.builtins["open"] = NativeFn("open", lambda I, a, k: _File(I, a[0]))
+
+        def x_path(I, a, k):
+            s = I.force(a[0])
+            if s == "pipelines":
+                return SObj("Path", {"is_dir": NativeFn("is_dir", lambda I2, a2, k2: True), "glob": NativeFn("glob", lambda I2, a2, k2: [SObj("Path", {"__str__": NativeFn("__str__", lambda I3, a3, k3: "pipelines/sub/p.yml")})]),
+                                     "__str__": NativeFn("__str__", lambda I2, a2, k2: "pipelines")})
+            return SObj("Path", {"is_dir": NativeFn("is_dir", lambda I2, a2, k2: False), "__str__": NativeFn("__str__", lambda I2, a2, k2: s)})
+        E.externals["pathlib.Path"] = x_path
+
+    def args(self, I, case):
+        del I.E._c16_from_yaml[:]
+        me = SObj(I.E.index.lookup("sigma.processing.resolver:ProcessingPipelineResolver"), {"pipelines": {}}, lazy=True)
+        return {"self": me, "args": [["pipelines"] if case == "directory" else ["conf/p.yml"]], "case": case}
+
+    def post(self, I, inp, r):
+        calls = I.E._c16_from_yaml
+        want = "pipelines/sub/p.yml" if inp["case"] == "directory" else "conf/p.yml"
+        ok = len(calls) == 1
+        I.ctx.require(ok, "the pipeline file is loaded once")
+        if ok:
+            a, k = calls[0]
+            sp = I.force(k.get("source_path", a[1] if len(a) > 1 else None))
+            I.ctx.require(sp == want, f"source_path == the pipeline file's own path {want!r} (got {sp!r})")
+            I.ctx.require(not any(n in k for n in ("allow_template_vars", "vars_allowed_paths", "allow_external_sources")) and len(a) <= 2, "no opt-in argument is passed by the resolver")
+
+    def frame_ok(self, I, inp, obj, name):
+        return False
